@@ -2,14 +2,21 @@
   C19 — Automation output stays in range and MIDI-learn requests are served in order.
   Property theorems only; definitions of the specification are in RtoscModel/AutoSpec.lean,
   helper lemmas in Proofs/AutoLemmas.lean.  The model (RtoscModel/Auto.lean) mirrors
-  src/cpp/automations.cpp with the three repairs fixes/C19-*.patch applied.
+  src/cpp/automations.cpp with the four repairs fixes/C19-*.patch applied.
 
   Reading of the statement.
   * "any sequence of binding, clearing, gain/offset and slot-value operations": `Reachable`
     — every state reached from a fresh manager (any number of slots and sub-automations) by
-    any finite history of `Op`s that are well-formed (`OpWF`: ports have min <= max, MIDI
-    channel/controller numbers are not negative) and stay clear of the undefined behaviour
-    of createBinding/setSlotSubPath (unchecked indices).
+    any finite history of `Op`s that are well-formed (`OpWF`: ports have min <= max, bound
+    addresses have at most 127 characters, MIDI channel/controller numbers are not negative)
+    and stay clear of the undefined behaviour of createBinding/setSlotSubPath (unchecked
+    indices).
+  * "the bound parameter": every automation of the model carries a ghost field `bound` (nothing
+    reads it) holding the address and the port of the createBinding/setSlotSubPath call that
+    filled it; `binding_is_recorded` says that this field is exactly that: set by a successful
+    bind to the call's arguments, dropped by the clear operations, untouched by everything
+    else.  The range/type theorem is then stated against `portType`/`portRange`/`MsgOKPort`
+    (RtoscModel/AutoSpec.lean), which only look at the port.
   * float arithmetic: the bookkeeping theorems hold for every `Arith`; range and monotonicity
     hold for every `Arith` satisfying the order laws `Laws` (a hypothesis); the laws are
     proved for exact rational arithmetic (`exact_laws`) and for the IEEE-754 binary32/64
@@ -20,6 +27,7 @@
 -/
 import RtoscModel.Proofs.AutoLemmas
 import RtoscModel.Proofs.AutoFloatLemmas
+import RtoscModel.Proofs.AutoBind
 namespace Rtosc.Auto
 open Rtosc
 variable {F : Type}
@@ -108,20 +116,44 @@ theorem bound_cc_drives_its_slot (A : Arith F) (ns p : Nat) (m : Mgr F) (hr : Re
 /-- **emit_in_range_right_type** ("every message an automation slot emits goes to the bound
     parameter's address with the bound parameter's type and a value inside that parameter's
     declared [min,max] (true/false for toggles)"): every message handed to `backend` by any
-    operation in any reachable state is the message of a `used` automation of that state,
-    satisfies `MsgOK` for it, and that automation carries the address, type and range of a
-    well-formed port (`FromPort`). -/
+    operation in any reachable state is the message of a `used` automation of that state;
+    that automation was bound — by the last createBinding/setSlotSubPath that filled it
+    (`bound`, see `binding_is_recorded`) — to a well-formed usable port `port` under the
+    address `path`, and the message satisfies the specification `MsgOKPort path port`: its
+    address is `path`, its type is `portType port`, its value lies in `portRange port`
+    (integers: `(int)roundf` of the bounds; log scale: the bounds pass through
+    `expf ∘ logf`, which is libm's rounding and covered by the property's tolerance). -/
 theorem emit_in_range_right_type (A : Arith F) (L : Laws A) (n p : Nat) (m m' : Mgr F) (op : Op F)
     (ms : List (Msg F)) (hr : Reachable A n p m) (hs : step A m op = some (m', ms)) :
-    ∀ msg ∈ ms, ∃ sl ∈ m.slots, ∃ au ∈ sl.autos,
-      au.used = true ∧ FromPort A au ∧ MsgOK A au msg := by
+    ∀ msg ∈ ms, ∃ sl ∈ m.slots, ∃ au ∈ sl.autos, ∃ (path : Bytes) (port : PortInfo F),
+      au.used = true ∧ au.bound = some (path, port) ∧ PortWF A port ∧
+      portUsable (some port) = some port ∧ MsgOKPort A path port msg := by
   intro msg hmsg
   obtain ⟨l, hl, au, hau, x, hx⟩ := step_msgs A m m' op ms hs msg hmsg
   simp only [autosOf, List.mem_map] at hl
   obtain ⟨sl, hsl, rfl⟩ := hl
   have hg := (inv_reachable A n p m hr).good sl hsl au hau
   obtain ⟨hu, hok⟩ := emit_ok L au x msg hg hx
-  exact ⟨sl, hsl, au, hau, hu, (hg hu).1, hok⟩
+  obtain ⟨path, port, hb, hw, hp, hm⟩ := msgOK_port A au msg (hg.1 hu).1 hok
+  exact ⟨sl, hsl, au, hau, path, port, hu, hb, hw, hp, hm⟩
+
+/-- **binding_is_recorded** (what "the bound parameter" of the statement refers to): the ghost
+    table `boundsOf` — per slot and sub-automation the address and port of the call that bound
+    it — starts empty and is changed by every operation exactly as the specification
+    `absBind` says: a createBinding that finds a usable port fills the first free
+    sub-automation of its slot with that address and port, setSlotSubPath fills the one it
+    names, clearSlot/clearSlotSub empty what they name, and no other operation (gain, offset,
+    slot values, MIDI, learning) changes what anything is bound to.  Moreover an automation
+    is `used` (can emit) exactly when the table has an entry for it. -/
+theorem binding_is_recorded (A : Arith F) :
+    (∀ n p, boundsOf (Mgr.init A n p) = List.replicate n (List.replicate p none)) ∧
+    (∀ n p (m m' : Mgr F) (op : Op F) (ms : List (Msg F)), Reachable A n p m →
+      step A m op = some (m', ms) → boundsOf m' = absBind m.perSlot (boundsOf m) op) ∧
+    (∀ n p (m : Mgr F), Reachable A n p m →
+      ∀ sl ∈ m.slots, ∀ au ∈ sl.autos, (au.used = false ↔ au.bound = none)) :=
+  ⟨boundsOf_init A,
+   fun n p m m' op ms hr hs => binding_step A m m' op ms (inv_reachable A n p m hr).good hs,
+   fun n p m hr sl hsl au hau => good_used_iff A au ((inv_reachable A n p m hr).good sl hsl au hau)⟩
 
 /-- **emit_monotone** ("a value ... that never decreases when the slot value increases (for
     positive gain)"): for a used automation of a reachable state whose gain is not negative,
@@ -148,7 +180,7 @@ theorem default_gain_linear (n p : Nat) (m : Mgr Rat) (hr : Reachable exact n p 
     (sl : Slot Rat) (hsl : sl ∈ m.slots) (au : Automation Rat) (hau : au ∈ sl.autos)
     (hu : au.used = true) (hg : au.gain = 100) (ho : au.offset = 0) (hl : au.logScale = false)
     (x : Rat) (hx0 : 0 ≤ x) (hx1 : x ≤ 1) : emit exact au x = [linearMsg au x] := by
-  obtain ⟨hfp, hcp⟩ := (inv_reachable exact n p m hr).good sl hsl au hau hu
+  obtain ⟨hfp, hcp⟩ := ((inv_reachable exact n p m hr).good sl hsl au hau).1 hu
   obtain ⟨hty, hm⟩ := fromPort_facts exact_laws au hfp
   rw [hg, ho] at hcp
   exact emit_default_linear au x hu hty hl hcp (by simpa [exact] using hm) hx0 hx1
@@ -185,9 +217,11 @@ example : ∀ op ∈ exHistory, OpWF exact op := by
   intro op hop
   simp only [exHistory, List.mem_cons, List.not_mem_nil, or_false] at hop
   rcases hop with rfl | rfl | rfl | rfl | rfl | rfl | rfl | rfl <;> simp only [OpWF] <;> try decide
-  · intro p hp; cases hp; refine ⟨?_, by decide⟩
+  · refine ⟨by decide, ?_⟩
+    intro p hp; cases hp; refine ⟨?_, by decide⟩
     intro mn mx h1 h2; cases h1; cases h2; exact ⟨by decide, by intro l hl; cases hl⟩
-  · intro p hp; cases hp; refine ⟨?_, by decide⟩
+  · refine ⟨by decide, ?_⟩
+    intro p hp; cases hp; refine ⟨?_, by decide⟩
     intro mn mx h1 h2; cases h1; cases h2; exact ⟨by decide, by intro l hl; cases hl⟩
 
 /-- after the clear both requests are still numbered 1, 2 (the unrepaired code gives 0, 1);
@@ -200,5 +234,35 @@ example : (run exact (Mgr.init exact 3 2) exHistory).map
       (fun r => r.2.map (fun ms => ms.map (fun msg => (msg.addr, msg.ty)))) =
     some [[], [], [], [([47, 112, 97], 'i')], [([47, 112, 98], 'f')], [([47, 112, 98], 'f')], [],
           [([47, 112, 98], 'f')]] := by decide +kernel
+
+/-- the binding table after the history: slot 0 sub 0 is bound to /pa, slot 1 sub 0 to /pb,
+    nothing else is bound (the clearSlot of slot 2, the learning and the gain change nothing) -/
+example : (run exact (Mgr.init exact 3 2) exHistory).map
+      (fun r => (boundsOf r.1).map (fun row => row.map (fun b => b.map (·.1)))) =
+    some [[some [47, 112, 97], none], [some [47, 112, 98], none], [none, none]] := by decide +kernel
+
+/-- `MsgOKPort` is satisfiable and says what one expects: 64 may be sent to the integer
+    parameter 0..127 under its own address … -/
+example : MsgOKPort exact [47, 112, 97] exPortI { addr := [47, 112, 97], ty := 'i', val := .int 64 } :=
+  ⟨rfl, 0, 127, by decide +kernel, Or.inl ⟨by decide, rfl, rfl, 64, rfl, by decide +kernel, by decide +kernel⟩⟩
+
+/-- … but neither 128, nor a float, nor another address -/
+example : ¬ MsgOKPort exact [47, 112, 97] exPortI { addr := [47, 112, 97], ty := 'i', val := .int 128 } := by
+  rintro ⟨_, lo, hi, hr, h⟩
+  have e : portRange exact exPortI = some (0, 127) := by decide +kernel
+  rw [e] at hr
+  cases hr
+  rcases h with ⟨_, _, _, n, hn, _, h2⟩ | ⟨_, h, _⟩ | ⟨h, _⟩ | ⟨h, _⟩ | ⟨h, _⟩
+  · cases hn
+    have : exact.toInt (exact.roundf (127 : Rat)) = 127 := by decide +kernel
+    rw [this] at h2
+    omega
+  · exact absurd h (by decide)
+  · exact absurd h (by decide)
+  · exact absurd h (by decide)
+  · exact absurd h (by decide)
+
+example : ¬ MsgOKPort exact [47, 112, 97] exPortI { addr := [47, 112, 98], ty := 'i', val := .int 64 } := by
+  rintro ⟨h, _⟩; exact absurd h (by decide)
 
 end Rtosc.Auto
